@@ -21,6 +21,8 @@ struct XSock {
     bool nonblocking = false;
     bool bytestream = false;
     bool closed = false;
+    bool closing = false;      // xcm_close has been entered
+    uint64_t refused_sends = 0;    // xcm_send calls refused with EAGAIN so far
     int xfd = -1;              // xcm_fd() as first seen
     XSock *peer = nullptr;     // paired endpoint (other end of the connection), when known
     XSock *parent = nullptr;   // server socket for accepted connections
@@ -67,6 +69,7 @@ struct XOpts {
     bool check_refusal = false;    // C03: a refused send must leave counters untouched
     bool check_counters = false;   // read all counters after every call (C17)
     bool check_fd_stable = true;   // C16: xcm_fd never changes
+    bool judge_unprovoked = false; // runs without injected connection faults: a connection that reports a terminal errno while its peer is alive and well has broken by itself
 };
 extern XOpts XO;
 
